@@ -42,7 +42,8 @@ def b(x):
 
 def field_ok(side, f):
     if side == "req":
-        return f["effect"] == "prefixed" and f["intact"] == "1" and f["emptyend"] in ("na", "kend")
+        want = {"end": ("kend",), "start": ("kstart",), "key": ("kstart", "empty")}[f["role"]]
+        return f["effect"] == "prefixed" and f["intact"] == "1" and f["empty"] in want
     return f["effect"] == ("stripped" if f["fmt"] == "plain" else "stripped-region")
 
 
@@ -96,7 +97,8 @@ def catalogue(c, hbin, cmds):
                 c.problems.append(p)
             field_rows.setdefault(w[1], []).append(
                 f"  ⟨{lstr(w[1])}, .{w[2]}, {lstr(w[3])}, {b(f['multi'])}, .{f['fmt']}, .{EFFECT.get(f['effect'], 'other')}, {b(f['intact'])}, "
-                f".{f['emptyend'] if f['emptyend'] in ('na', 'kend', 'empty') else 'other'}, {b('1' if kn else '0')}⟩")
+                f".{'end_' if f['role'] == 'end' else f['role']}, .{f['empty'] if f['empty'] in ('na', 'kend', 'kstart', 'empty') else 'other'}, "
+                f"{b('1' if kn else '0')}⟩")
     if not cmd_rows:
         c.problems.append(Problem("tie", "catalogue has no command rows", ["-catalogue"]))
         return False
@@ -118,7 +120,7 @@ def catalogue(c, hbin, cmds):
 def run(a):
     c = Check(PID, a.tier, a.seed)
     c.cov["rule"] = ("(1) op lines on internal/apicodec codec v2 vs the Lean model: bounds/enckey/deckey/encrange(reverse)/decrange/"
-                     "encregkey/decregkey/encregrange/decregrange/regerr (EpochNotMatch list through DecodeResponse)/reqrange (EncodeRequest on every "
+                     "encregkey/decregkey/encregrange/decregrange/buckets (DecodeBucketKeys)/regerr (EpochNotMatch list through DecodeResponse)/reqrange (EncodeRequest on every "
                      "command with a start_key/end_key pair) are correspondence ops; rt/rtrange/ord/inrange/disj/clip are property ops whose verdict each "
                      "side computes on its own functions; all boundary ids (00/FF patterns, 0, 0xFFFFFF) x both modes x fixed keys, then seeded random keys "
                      "(empty, 00/FF runs, mode bytes, keys around prefix and prefix+1); (2) the catalogue: one row per tikvrpc.CmdType (from go/types over the "
@@ -129,6 +131,8 @@ def run(a):
                      "shorter starts are only compared against the model (decrange)",
                      "which fields are key-bearing is decided by the printed name/type rule; the catalogue probes one field at a time with every "
                      "top-level singular sub-message allocated",
+                     "the field walker (Model/ApiV2Fields.lean) extends a row's observed marker behaviour (prefixed / stripped / what an empty key becomes) to all keys: "
+                     "the catalogue_* theorems hold for the real code only as far as each per-field arm is the uniform EncodeKey / encodeRange / DecodeKey / DecodeRegionRange call the probes suggest",
                      "mocktikv is the store of the end-to-end run (no real TiKV API-v2 behaviour)"]
     cmds = facts(c)
     if cmds:
